@@ -20,5 +20,11 @@ Proof. intros T _. exact (add_tables_sum T). Qed.
 Theorem c01_fixed_tables : fixed_sum_statement.
 Proof. exact fixed_sum. Qed.
 
+(* RQSC (controllers with nested resources), FADT (any builder calls), SLIT (any accepted cell assignments), HEST histories
+   interleaved with stand-alone structures: special_sum_statement in Proofs/Registry.v *)
+Theorem c01_special_tables : special_sum_statement.
+Proof. exact special_sum. Qed.
+
 Print Assumptions c01_add_tables.
 Print Assumptions c01_fixed_tables.
+Print Assumptions c01_special_tables.
